@@ -567,8 +567,8 @@ Section Correct.
     destruct (take_unit ts) as [[u r1]|] eqn:Eu; [|discriminate].
     destruct (take_tail (S (length r1)) r1) as [[l r2]|] eqn:Et; [|discriminate].
     inversion H; subst. apply take_unit_spec in Eu. apply take_tail_spec in Et.
-    destruct Eu as (U1 & U2). destruct Et as (T1 & T2). cbn [fst snd]. repeat split; auto.
-    unfold alt_tokens. cbn [fst snd]. rewrite U2, T2. rewrite <- app_assoc. reflexivity.
+    destruct Eu as (U1 & U2). destruct Et as (T1 & T2). cbn [fst snd]. split; [exact U1|split; [exact T1|]].
+    unfold alt_tokens. cbn [fst snd]. rewrite <- app_assoc, <- T2. exact U2.
   Qed.
 
   (* an expression followed by anything that does not continue it: the Pratt loop returns the
